@@ -42,6 +42,14 @@ func (self *Transformer) stmtCanControlLoop(node ast.AnalyzedStatement) bool {
 	case ast.ExpressionStatementKind:
 		node := node.(ast.AnalyzedExpressionStatement)
 		return self.exprCanControlLoop(node.Expression)
+	case ast.TriggerStatementKind:
+		node := node.(ast.AnalyzedTriggerStatement)
+		for _, arg := range node.TriggerArguments.List {
+			if self.exprCanControlLoop(arg.Expression) {
+				return true
+			}
+		}
+		return false
 	default:
 		panic("A new statement kind was introduced without updating this code")
 	}
